@@ -313,6 +313,10 @@ func (t *basicTaskBase) Transition(cmd *executorcmd.ExecutorCommand_Transition) 
 }
 
 func (t *basicTaskBase) Kill() error {
+	// A BASIC task whose process is still running must not survive its Kill: we kill the whole
+	// process group as STOP does (this is a no-op for HOOK tasks and for processes already gone).
+	_ = t.ensureBasicTaskKilled()
+
 	if t.taskCmd != nil {
 		t.taskCmd = nil
 	}
